@@ -331,13 +331,23 @@ func genSmpExtreme(w *bufio.Writer, rng *rand.Rand) {
 	}
 	weighted := rng.Intn(2) == 0
 	ws := "-"
+	topBand := false
 	if weighted && mag > 5e307 {
-		// the weighted mean multiplies a deviation by its weight (up to 3 here) before dividing by the
-		// running weight: that product has to stay in range for the formula to deliver anything
-		for i := range xs {
-			xs[i] /= 4
+		if rng.Intn(2) == 0 {
+			// the weighted mean multiplies a deviation by its weight (up to 3 here) before dividing by the
+			// running weight: that product has to stay in range for the formula to deliver anything
+			for i := range xs {
+				xs[i] /= 4
+			}
+			mag /= 4
+		} else {
+			// ... which it does at the very top of the range too when the first counting value has weight 1
+			// (the running mean then starts at that value) and the others lie in a narrow band around it
+			topBand = true
+			for i := range xs {
+				xs[i] = sign * mag * (1 - float64(rng.Intn(64))/4096)
+			}
 		}
-		mag /= 4
 	}
 	if weighted {
 		wv := make([]float64, n)
@@ -353,6 +363,14 @@ func genSmpExtreme(w *bufio.Writer, rng *rand.Rand) {
 		}
 		if live == 0 {
 			wv[0], xs[0] = 1, sign*mag
+		}
+		if topBand {
+			for i := range wv {
+				if wv[i] != 0 {
+					wv[i] = 1 // the first counting value
+					break
+				}
+			}
 		}
 		ws = fmtFs(wv)
 	}
@@ -398,6 +416,20 @@ func genC09(w *bufio.Writer, tier string, rng *rand.Rand) {
 			lo, hi := rng.NormFloat64()*100, rng.NormFloat64()*100
 			if rng.Intn(3) == 0 {
 				lo, hi = float64(rng.Intn(20)-10), float64(rng.Intn(20)-10)
+			}
+			switch rng.Intn(8) {
+			case 0: // a span of a few subnormal steps, or of a few ulps of a large number
+				lo = []float64{0, 5e-324, -1e-322, 1e-310}[rng.Intn(4)]
+				hi = lo + float64(1+rng.Intn(60))*5e-324*float64(rng.Intn(2)*2-1)
+			case 1:
+				lo = []float64{1, 1e300, -1e15, 4503599627370496}[rng.Intn(4)]
+				hi = lo
+				for q := 1 + rng.Intn(50); q > 0; q-- {
+					hi = math.Nextafter(hi, math.Inf(1))
+				}
+			case 2: // the top of the range (the code multiplies the span by the index before dividing: span x count stays finite)
+				lo = []float64{0, 1.7e308, -1.75e308, -2e306}[rng.Intn(4)]
+				hi = lo + []float64{4e306, -4e306, 2e306}[rng.Intn(3)]
 			}
 			fmt.Fprintf(w, "vec linspace %s %s %d\n", fmtF(lo), fmtF(hi), rng.Intn(40))
 		case 2:
